@@ -236,6 +236,7 @@ def correspondence(prop, ctx, mod):
     findings, known_hits = [], []
     tags, kinds, seen = Counter(), Counter(), set()
     nontrivial = 0
+    weight = 0
     known = [k for k in load_known() if k.get("property") == prop and k.get("status") == "known"]
     for op, il, ml in zip(ops, impl, model):
         mres, tag = split_tag(ml)
@@ -244,6 +245,7 @@ def correspondence(prop, ctx, mod):
             mres = mod.canon_model(op, mres)
         same = mod.equiv(op, il_c, mres) if hasattr(mod, "equiv") else (il_c == mres)
         kinds[" ".join(op.split()[:2])] += 1
+        weight += mod.weight(op) if hasattr(mod, "weight") else 1
         tags[mod.branch(op, mres, tag) if hasattr(mod, "branch") else mres.split(" ")[0]] += 1
         if op not in seen:
             seen.add(op)
@@ -262,7 +264,7 @@ def correspondence(prop, ctx, mod):
         elif not same:
             findings.append(Finding("broken-tie", mod.TIE, mod.TIE_THEOREM, op, mres, il_c,
                                     "model and implementation disagree; property predicate not falsified on this op"))
-    cov = {"evaluations": len(ops), "distinct_nontrivial": nontrivial, "rule": mod.RULE,
+    cov = {"evaluations": weight, "op_lines": len(ops), "distinct_nontrivial": nontrivial, "rule": mod.RULE,
            "samples": [ops[i] for i in sorted(set([0, len(ops) // 3, (2 * len(ops)) // 3, len(ops) - 1])) if i < len(ops)][:4],
            "op_kinds": dict(kinds), "model_branches": dict(tags.most_common(40)),
            "traces_validated_against_impl": len(ops)}
